@@ -15,6 +15,7 @@ package server
 import (
 	"encoding/json"
 	"errors"
+	"io"
 	"net/http"
 
 	"github.com/mitchellh/mapstructure"
@@ -456,5 +457,81 @@ func VerifC19_Others() {
 		c19AssertUnchanged(pre, post, ":other")
 	}
 	_ = code
+	vReach("end")
+}
+
+// ---- the whole http handler: method check, body read, JSON decode, dispatch, answer ----
+
+type c19Body struct {
+	data []byte
+	fail bool
+}
+
+func (b *c19Body) Read(p []byte) (int, error) { return 0, errors.New("harness: Read is replaced by c19ReadAll") }
+func (b *c19Body) Close() error              { return nil }
+
+// stands in for ioutil.ReadAll on the harness body (a failing read is a free boolean)
+func c19ReadAll(r io.Reader) ([]byte, error) {
+	b := r.(*c19Body)
+	if b.fail {
+		return nil, errors.New("unexpected EOF")
+	}
+	return b.data, nil
+}
+
+func c19HeaderSet(h http.Header, key, value string) {}
+
+// VerifC19_Handler: any method, any body (unreadable, not JSON, JSON with an unknown or a
+// known request type) yields exactly one JSON answer with code 200 / 400 / 500, or 405 for
+// a method other than POST.
+func VerifC19_Handler() {
+	f := newSFactory()
+	cdc, srv := c19NewServer(f)
+	c19Prior(cdc, srv)
+	method := c19OneOf("method", "POST", "GET", "")
+	body := &c19Body{}
+	kind := vChoice("body", 6)
+	switch kind {
+	case 0:
+		body.fail = true
+	case 1:
+		body.data = []byte("{not json")
+	case 2:
+		body.data, _ = json.Marshal(&request.CDCRequest{RequestType: "no-such-type"})
+	case 3:
+		data := map[string]any{}
+		_ = mapstructure.Decode(&request.GetRequest{TaskID: c19OneOf("id", "", "task-1", "nope")}, &data)
+		body.data, _ = json.Marshal(&request.CDCRequest{RequestType: request.Get, RequestData: data})
+	case 4:
+		body.data, _ = json.Marshal(&request.CDCRequest{RequestType: request.List})
+	case 5:
+		data := map[string]any{}
+		_ = mapstructure.Decode(&request.CreateRequest{MilvusConnectParam: model.MilvusConnectParam{URI: c19T2},
+			CollectionInfos: []model.CollectionInfo{{Name: c19OneOf("name", "a", "", "*")}}, BufferConfig: model.BufferConfig{Period: vInt("period")}}, &data)
+		body.data, _ = json.Marshal(&request.CDCRequest{RequestType: request.Create, RequestData: data})
+	}
+	w := &c19Writer{hdr: http.Header{}}
+	req := &http.Request{Method: method, Body: body}
+	srv.getCDCHandler().ServeHTTP(w, req)
+	vAssert(len(w.writes) == 1, "C19.exactly-one-response")
+	if len(w.writes) != 1 {
+		return
+	}
+	var r request.CDCResponse
+	err := json.Unmarshal(w.writes[0], &r)
+	vAssert(err == nil, "C19.response-is-json")
+	vAssert(r.Code == 200 || r.Code == 400 || r.Code == 500 || r.Code == 405, "C19.code-is-200-400-500-or-405")
+	vAssert((r.Code == 405) == (method != "POST"), "C19.405-exactly-for-non-POST")
+	if method == "POST" {
+		if kind <= 1 {
+			vAssert(r.Code == 500, "C19.unreadable-or-undecodable-body-is-an-error")
+		}
+		if kind == 2 {
+			vAssert(r.Code == 400, "C19.unknown-request-type-is-400")
+		}
+		if kind == 4 {
+			vAssert(r.Code == 200, "C19.list-succeeds")
+		}
+	}
 	vReach("end")
 }
